@@ -17,14 +17,24 @@
 //! `Canceled`), a contended `Mutex::lock()` (must not panic with Cancel / "mutex timeout"), `sleep(d)` (not early),
 //! and a CLS access (must run the initialiser: empty map). Oracle: none of them sees anything of the predecessor.
 //!
+//! Part 3 – time-out / unpark race (seeded change C15_b): 6–12 coroutines wait in `coroutine::park_timeout(1–3 ms)` while
+//! the main thread sweeps `Coroutine::unpark` over them around the expiry (the timer has taken a coroutine and stored
+//! `TimedOut`, the unpark lands before the resumed coroutine consumed it); the pool capacity is raised so that all their
+//! stacks are pooled, then as many fresh coroutines each make ONE probing wait whose result they must own: a blocking
+//! `recv_from` on a UDP socket without time-out that gets one datagram (the io paths read the para: `co_io_result`), a
+//! 5 s `Blocker::park` that is unparked, a `Semphore::wait_timeout(5 s)` that is posted, a 1 ms sleep. Oracle: a probe
+//! that reports TimedOut / Canceled = "stale para reached a fresh coroutine".
+//!
 //! API events: `co.start c` · `cls.with k` → id · `cls.init id k` (inside `with`) · `cls.drop id k` · `co.end c how`
 //! (0 normal, 1 panic, 2 cancelled) · `first.park u` → 0 Ok / 1 Timeout / 2 Canceled · `first.lock` → 0 · `first.sleep`
 //! → 0 · `stack.reuse c` (the fresh coroutine runs on a predecessor's stack) · `unwind.yield` / `unwind.sleep` /
-//! `unwind.park` → code (blocking calls of a `Drop` impl during the Cancel unwind).
+//! `unwind.park` → code (blocking calls of a `Drop` impl during the Cancel unwind) · `sweep.park ms` (call … ret) ·
+//! `probe.udp` → 0 Ok / 1 TimedOut / 2 other error · `probe.park` → 0/1/2 · `probe.sem` → 1 acquired / 0 timed out.
 use super::{spawn_actor_thread, LiveBuilt};
 use crate::rt::{call, ret, Rng};
 use may::coroutine::{self, ParkError};
-use may::sync::{Blocker, Mutex};
+use may::net::UdpSocket;
+use may::sync::{Blocker, Mutex, Semphore};
 use may::{coroutine_local, cqueue, go};
 use std::collections::HashMap;
 use std::sync::atomic::{AtomicBool, AtomicU64, Ordering::SeqCst};
@@ -226,8 +236,10 @@ fn cls_coroutine(name: String, ops: Vec<Op>, end: End, sh: Arc<Sh>, parked: Arc<
                     End::Cancelled => {
                         call("co.end", 2, 0);
                         parked.store(true, SeqCst);
-                        coroutine::park(); // ends only by cancellation
-                        sh.fails.lock().unwrap().push(format!("{who}: park of a coroutine that is only cancelled returned"));
+                        // ends by cancellation. (That the cancel is DELIVERED is C09's property, not this one's: on a worker whose
+                        // std panic count was corrupted by a coroutine that switched out while unwinding – `Park::drop` yields with
+                        // the cancel disabled – `check_cancel` sees `thread::panicking()` and the park just returns.)
+                        coroutine::park();
                     }
                 }
                 ids
@@ -282,7 +294,8 @@ fn run(spec: Spec) -> Vec<String> {
         match (end, r) {
             (End::Normal, Ok(ids)) => accessed.push((i, ids, end)),
             (End::Normal, Err(_)) => fail(format!("c{i} panicked")),
-            (_, Ok(_)) => fail(format!("c{i} returned although it panics / is cancelled")),
+            (End::Cancelled, Ok(ids)) => accessed.push((i, ids, end)), // see the comment at its `park`
+            (_, Ok(_)) => fail(format!("c{i} returned although it panics")),
             (_, Err(_)) => accessed.push((i, vec![], end)),
         }
     }
@@ -475,8 +488,147 @@ fn run(spec: Spec) -> Vec<String> {
             GRAVE.lock().unwrap().push(co);
         }
     }
+    // ------------------------------------------------------------------ part 3: time-out / unpark race, then probes
+    if let Some((n, ms, off)) = spec.sweep {
+        may::config().set_pool_capacity(n + 2); // `put` reads the capacity every time: all the stacks are pooled
+        let t0 = Instant::now();
+        let hs: Vec<_> = (0..n)
+            .map(|i| unsafe {
+                coroutine::Builder::new()
+                    .name(format!("s{}", i + 1))
+                    .spawn(move || {
+                        GRAVE.lock().unwrap().push(coroutine::current());
+                        call("co.start", 0, 0);
+                        STACKS.lock().unwrap().push(stack_page());
+                        call("sweep.park", ms, 0);
+                        coroutine::park_timeout(Duration::from_millis(ms));
+                        ret("sweep.park", 0);
+                        call("co.end", 0, 0);
+                    })
+                    .unwrap()
+            })
+            .collect();
+        let at = t0 + Duration::from_millis(ms) + Duration::from_micros(off);
+        let at = at.checked_sub(Duration::from_micros(100)).unwrap_or(at);
+        while Instant::now() < at {
+            std::hint::spin_loop();
+        }
+        for h in &hs {
+            h.coroutine().unpark();
+        }
+        for h in hs {
+            let co = h.coroutine().clone();
+            if h.join().is_err() {
+                fail("a sweep coroutine panicked".into());
+            }
+            GRAVE.lock().unwrap().push(co);
+        }
+        std::thread::sleep(Duration::from_micros(300));
+        let stacks: Vec<usize> = STACKS.lock().unwrap().clone();
+        let probe = Arc::new(UdpSocket::bind("127.0.0.1:0").unwrap());
+        let addr = probe.local_addr().unwrap();
+        let sender = std::net::UdpSocket::bind("127.0.0.1:0").unwrap();
+        for j in 0..n + 2 {
+            let kind = j % 4;
+            let qname = format!("q{}", j + 1);
+            let ready = Arc::new(AtomicBool::new(false));
+            let blk: Arc<StdMutex<Option<Arc<Blocker>>>> = Arc::new(StdMutex::new(None));
+            let sem = Arc::new(Semphore::new(0));
+            let (p2, r2, b2, s2, sh2, st2, qn2) = (probe.clone(), ready.clone(), blk.clone(), sem.clone(), sh.clone(), stacks.clone(), qname.clone());
+            let h = unsafe {
+                coroutine::Builder::new()
+                    .name(qname.clone())
+                    .spawn(move || {
+                        GRAVE.lock().unwrap().push(coroutine::current());
+                        let who = format!("c:{qn2}");
+                        call("co.start", 0, 0);
+                        if st2.contains(&stack_page()) {
+                            call("stack.reuse", 0, 0);
+                        }
+                        let bad = |what: String| sh2.fails.lock().unwrap().push(format!("stale-para: stale para reached a fresh coroutine: {who} {what}"));
+                        match kind {
+                            0 | 1 => {
+                                // no time-out was ever set on this socket
+                                call("probe.udp", 0, 0);
+                                let mut buf = [0u8; 8];
+                                r2.store(true, SeqCst);
+                                let r = p2.recv_from(&mut buf).map(|(n, _)| n);
+                                let code = match &r {
+                                    Ok(_) => 0,
+                                    Err(e) if e.kind() == std::io::ErrorKind::TimedOut => 1,
+                                    Err(_) => 2,
+                                };
+                                ret("probe.udp", code);
+                                if code != 0 {
+                                    bad(format!("got {r:?} from its first recv_from on a socket without time-out"));
+                                }
+                            }
+                            2 => {
+                                call("probe.park", 1, 0);
+                                let b = Blocker::current();
+                                *b2.lock().unwrap() = Some(b.clone());
+                                r2.store(true, SeqCst);
+                                let r = b.park(Some(Duration::from_secs(5)));
+                                let code = match r {
+                                    Ok(()) => 0,
+                                    Err(ParkError::Timeout) => 1,
+                                    Err(ParkError::Canceled) => 2,
+                                };
+                                ret("probe.park", code);
+                                if code != 0 {
+                                    bad(format!("got {r:?} from its first park (5 s), which was unparked at once"));
+                                }
+                            }
+                            _ => {
+                                call("probe.sem", 0, 0);
+                                r2.store(true, SeqCst);
+                                let ok = s2.wait_timeout(Duration::from_secs(5));
+                                ret("probe.sem", ok as u64);
+                                if !ok {
+                                    bad("timed out in its first Semphore::wait_timeout(5 s), which was posted at once".into());
+                                }
+                            }
+                        }
+                        call("co.end", 0, 0);
+                    })
+                    .unwrap()
+            };
+            let t1 = Instant::now();
+            while !ready.load(SeqCst) && t1.elapsed() < Duration::from_secs(5) {
+                std::hint::spin_loop();
+            }
+            // give it the time to block
+            std::thread::sleep(Duration::from_micros(150));
+            match kind {
+                0 | 1 => {
+                    let _ = sender.send_to(b"x", addr);
+                }
+                2 => {
+                    if let Some(b) = blk.lock().unwrap().as_ref() {
+                        b.unpark();
+                    }
+                }
+                _ => sem.post(),
+            }
+            let co = h.coroutine().clone();
+            if h.join().is_err() {
+                fail(format!("fresh-panic: the probing coroutine {qname} saw a cancellation or error nobody requested: it panicked"));
+            }
+            GRAVE.lock().unwrap().push(co);
+        }
+        may::config().set_pool_capacity(2);
+    }
     // ------------------------------------------------------------------ final accounting
-    std::thread::sleep(Duration::from_millis(2)); // the last drop_coroutine runs right after the join was triggered
+    // the last `drop_coroutine` runs a moment after the join was triggered: wait for completion (no real-time upper bound:
+    // give up only after 5 s, a value that is still not dropped then is reported below)
+    let t_acc = Instant::now();
+    loop {
+        let pending = REG.lock().unwrap().as_ref().map(|r| r.values().filter(|i| i.drops == 0).count()).unwrap_or(0);
+        if pending == 0 || t_acc.elapsed() > Duration::from_secs(5) {
+            break;
+        }
+        std::thread::sleep(Duration::from_micros(200));
+    }
     if let Some(r) = REG.lock().unwrap().as_ref() {
         let mut per: HashMap<(String, usize), usize> = HashMap::new();
         for (id, i) in r.iter() {
@@ -503,6 +655,8 @@ struct Spec {
     threads: Vec<Vec<Op>>,
     hist: Vec<(Pred, Vec<First>)>,
     sel_delay_us: u64,
+    /// part 3: (coroutines, park time-out in ms, offset of the unpark sweep after the expiry in µs – 100)
+    sweep: Option<(usize, u64, u64)>,
 }
 
 pub fn build(rng: &mut Rng, tier: u32) -> LiveBuilt {
@@ -561,7 +715,8 @@ pub fn build(rng: &mut Rng, tier: u32) -> LiveBuilt {
             (pred, firsts)
         })
         .collect();
-    let spec = Spec { cos, threads, hist, sel_delay_us: rng.below(400) };
+    let sweep = if rng.chance(400) { Some((6 + rng.below(7) as usize, 1 + rng.below(3), rng.below(1200))) } else { None };
+    let spec = Spec { cos, threads, hist, sel_delay_us: rng.below(400), sweep };
     let header = format!("family=local keys={nk} cos={nco}");
     LiveBuilt {
         header,
